@@ -454,11 +454,17 @@ type c10Meta struct {
 	Field string   `json:"field"`
 	Alias string   `json:"alias,omitempty"`
 	Strat string   `json:"strategy"` // R | X
+	// BadArg: the meta field (at the root, where it is defined) is written with an argument it does
+	// not declare - instead of, or next to, its own
+	BadArg bool `json:"bad_arg,omitempty"`
+	// Sub: the request is a subscription whose root selection is defective (Field holds it)
+	Sub bool `json:"sub,omitempty"`
 }
 
-const c10MetaSDL = `schema { query: Root }
+const c10MetaSDL = `schema { query: Root subscription: Feed }
 type Root { a: Int q: Query }
 type Query { a: Int sub: Query }
+type Feed { ev(id: String!): Query }
 `
 
 type c10MetaNode struct {
@@ -499,6 +505,16 @@ func genC10Meta(t *rapid.T) *c10Meta {
 	}
 	m.Field = rapid.SampledFrom([]string{`__schema { queryType { name } }`, `__type(name: "Query") { name kind }`, `__type(name: "Root") { name }`, `__schema { types { name } }`}).Draw(t, "metaField")
 	m.Alias = rapid.SampledFrom([]string{"", "m", "a2"}).Draw(t, "metaAlias")
+	switch rapid.IntRange(0, 5).Draw(t, "metaVariant") {
+	case 0:
+		// an argument the meta field does not declare (alone, or next to the declared one)
+		m.Path, m.BadArg = nil, true
+		m.Field = rapid.SampledFrom([]string{`__type(foo: "Query") { name }`, `__type(name: "Query", foo: 1) { name }`, `__schema(x: 1) { queryType { name } }`, `__type(nam: "Root") { kind }`}).Draw(t, "metaBadArg")
+	case 1:
+		// a subscription whose root selection is defective: the error has to come back here too
+		m.Path, m.Sub = nil, true
+		m.Field = rapid.SampledFrom([]string{`nope`, `ev { a }`, `ev(id: "a", zzz: 1) { a }`, `ev(id: "a") { nope }`, `ev(id: null) { a }`}).Draw(t, "subDefect")
+	}
 	return m
 }
 
@@ -522,7 +538,10 @@ func checkC10Meta(m *c10Meta) (ds []hx.Discrepancy, res map[string]interface{}) 
 		return
 	}
 	sel := m.Field
-	key := m.Field[:strings.IndexAny(m.Field, " (")]
+	key := m.Field
+	if i := strings.IndexAny(m.Field, " ("); i >= 0 {
+		key = m.Field[:i]
+	}
 	if m.Alias != "" {
 		sel, key = m.Alias+": "+sel, m.Alias
 	}
@@ -531,6 +550,9 @@ func checkC10Meta(m *c10Meta) (ds []hx.Discrepancy, res map[string]interface{}) 
 		text = "a " + m.Path[i] + " { " + text + " }"
 	}
 	text = "{ " + text + " }"
+	if m.Sub {
+		text = "subscription { " + sel + " }"
+	}
 	func() {
 		defer func() {
 			if r := recover(); r != nil {
@@ -553,6 +575,21 @@ func checkC10Meta(m *c10Meta) (ds []hx.Discrepancy, res map[string]interface{}) 
 	}
 	holder, _ := cur.(map[string]interface{})
 	errs, _ := res["errors"].([]interface{})
+	if m.Sub {
+		if len(errs) == 0 {
+			add("no-error", "the subscription's root selection is defective but the response carries no error%s", ctx)
+		}
+		return
+	}
+	if m.BadArg {
+		if len(errs) == 0 {
+			add("no-error", "the meta field is written with an argument it does not declare but the response has no error%s", ctx)
+		}
+		if holder != nil && holder[key] != nil && strings.Contains(m.Field, "foo") && !strings.Contains(m.Field, "name:") {
+			add("resolved", "__type without its name argument (an undeclared one in its place) was answered%s", ctx)
+		}
+		return
+	}
 	if len(m.Path) == 0 {
 		// at the query root the meta field is defined
 		if len(errs) > 0 || holder == nil || holder[key] == nil {
@@ -790,7 +827,7 @@ func TestC10(t *testing.T) {
 	defer run.Flush()
 	classes := func(cc *c10Case, res map[string]interface{}) (bool, []string) {
 		if cc.Meta != nil {
-			return len(cc.Meta.Path) > 0, []string{"meta-field-scenario", fmt.Sprintf("meta-field-depth=%d", len(cc.Meta.Path)), "strategy=" + cc.Meta.Strat}
+			return true, []string{"meta-field-scenario", fmt.Sprintf("meta-field-depth=%d", len(cc.Meta.Path)), "strategy=" + cc.Meta.Strat, fmt.Sprintf("meta-undeclared-argument=%v", cc.Meta.BadArg), fmt.Sprintf("defective-subscription-root=%v", cc.Meta.Sub)}
 		}
 		df := cc.Defect
 		cl := []string{"strategy=" + stratName(cc.Case), "defect=" + df.Kind, "container=" + df.ConKind, fmt.Sprintf("response-key-selected-before=%v", df.KeyTaken), fmt.Sprintf("required-argument-written-as-valueless-variable=%v", df.ViaVar),
